@@ -383,6 +383,37 @@ def mixed_sequences(res, rng, n_seq, max_len):
                     history.append(op)
                     res.violation(f"C07:mixed:request-raised:{type(e).__name__}", f"legal request {op} raised {e!r} after {history[-8:]}", {"history": history})
                     break
+            elif r < 0.62:
+                # things that are not link requests and must leave every link alone: an attached module handed to the
+                # project again (alone or in a list with a new one), a clone of a linked module attached as a new module
+                live_mods = [n for n in live if n != "Output"]
+                kind = rng.choice(("reattach", "reattach-iadd", "reattach-in-list", "attach-clone"))
+                if not live_mods:
+                    kind = "new"
+                try:
+                    if kind == "reattach":
+                        p.attach_module(names[rng.choice(live_mods)])
+                    elif kind == "reattach-iadd":
+                        p += names[rng.choice(live_mods)]
+                    elif kind == "reattach-in-list":
+                        counter[0] += 1
+                        nm = f"m{counter[0]}"
+                        fresh = api.m.Amplifier(name=nm)
+                        p += [names[rng.choice(live_mods)], fresh]
+                        names[nm] = fresh
+                    elif kind == "attach-clone":
+                        counter[0] += 1
+                        nm = f"m{counter[0]}"
+                        c = names[rng.choice(live_mods)].clone()
+                        c.name = nm
+                        p.attach_module(c)
+                        names[nm] = c
+                    else:
+                        add_module()
+                except Exception as e:
+                    res.violation(f"C07:mixed:request-raised:{type(e).__name__}", f"{kind} raised {e!r} after {history[-8:]}", {"history": history + [(kind,)]})
+                    break
+                op = (kind,)
             elif r < 0.68:
                 op = ("new_module", add_module())
             elif r < 0.76:
